@@ -22,6 +22,7 @@ import (
 	"reduction.dev/reduction/proto/workerpb"
 	"reduction.dev/reduction/util/sliceu"
 	"reduction.dev/reduction/util/vhook"
+	"reduction.dev/reduction/workers/operator"
 	"verif/lib"
 	"verif/ophar"
 )
@@ -49,6 +50,8 @@ const (
 )
 
 type multiEnv struct {
+	procMu    sync.Mutex
+	procOf    map[string]*int // operator id -> identity of the (simulated) process running it now
 	c         *lib.Ctx
 	r         *rand.Rand
 	senders   []string
@@ -129,6 +132,20 @@ func newMultiEnv(c *lib.Ctx, faults bool) *multiEnv {
 		TimerCacheBytes: uint64(lib.Pick(r, []int{0, 0, 60 * e.keyGroups})),
 	}
 	vhook.SetTuning(&e.tuning)
+	// every operator node is its own process: the repository's per-process count of live Table objects must not
+	// protect a table file because a NEIGHBOUR in this test process still has a Table object for it
+	e.procOf = map[string]*int{}
+	vhook.Set(func(name string, arg any) {
+		if name == "operator.filesystem" {
+			a := arg.(*operator.VerifFileSystem)
+			e.procMu.Lock()
+			proc := e.procOf[a.OperatorID]
+			e.procMu.Unlock()
+			if proc != nil {
+				a.FS = lib.ProcFS{Inner: a.FS, Proc: proc}
+			}
+		}
+	})
 	e.location = filepath.Join(c.Dir, "store")
 	os.MkdirAll(e.location, 0o755)
 	e.store = ophar.NewShadowStore()
@@ -158,6 +175,7 @@ func (e *multiEnv) close() {
 		o.node.Kill()
 	}
 	vhook.SetTuning(nil)
+	vhook.Set(nil)
 	runtime.KeepAlive(e.pinned)
 }
 
@@ -273,6 +291,9 @@ func (e *multiEnv) deployAssembly(n int, from *jobCkpt, reuseIDs bool) {
 			return nil
 		}
 		id := ids[i]
+		e.procMu.Lock()
+		e.procOf[id] = new(int)
+		e.procMu.Unlock()
 		s.node = ophar.StartNode(ophar.NodeParams{ID: id, Job: e.job, Handler: s.h, MaxSize: e.maxSize,
 			Neighbors: func(senderID string, node *jobpb.NodeIdentity) proto.Operator {
 				return &neighbour{e: e, from: id, to: node.Id}
